@@ -126,6 +126,20 @@ func ruleC09Prec(c *Ctx, r *Rep) {
 	if nbin < 12 {
 		r.Undecided("binary-rules", token.NoPos, "only %d binary operator rules found", nbin)
 	}
+	// the unary sign applies to the following term together with its suffixes: the rules `'+' term` and `'-' term` take the
+	// precedence of their sign token, which is below every postfix token, so the parser keeps shifting suffixes; a %prec
+	// that lifts the rule above them makes it reduce first (-.a.b becomes (-.a).b) while the printed text stays the same
+	nun := 0
+	for _, rule := range y.Rules {
+		if len(rule.RHS) != 2 || (rule.RHS[0] != "'+'" && rule.RHS[0] != "'-'") || rule.RHS[1] != rule.LHS {
+			continue
+		}
+		nun++
+		r.Check(rule.Prec == "", fmt.Sprintf("rule:%s %s:%%prec", rule.RHS[0], rule.LHS), token.NoPos, "the unary rule `%s: %s` (parser.go.y:%d) has no %%prec override (found %q): with one that outranks the postfix tokens the sign binds before the suffixes, `-.a.b` parses as `(-.a).b`", rule.LHS, strings.Join(rule.RHS, " "), rule.Line, rule.Prec)
+	}
+	if nun < 2 {
+		r.Undecided("unary-rules", token.NoPos, "only %d unary sign rules found", nun)
+	}
 	// objectval '|' objectval reuses '|': same shape, checked above through tokOp
 }
 
